@@ -78,6 +78,32 @@ func main() {
 	if *replay != "" {
 		os.Exit(replayMain(*replay, *repo, *verif))
 	}
+	if strings.Contains(*prop, ",") || *prop == "all" {
+		// several properties in one process (testing aid: one load of the repository, a fresh walker and report per property)
+		ids := strings.Split(*prop, ",")
+		if *prop == "all" {
+			ids = nil
+			for k := range props {
+				ids = append(ids, k)
+			}
+			sort.Strings(ids)
+		}
+		seed, _ := strconv.Atoi(os.Getenv("VERIF_SEED"))
+		os.Setenv("VERIF_DIR", *verif)
+		p, err := LoadRepo(*repo)
+		code := 0
+		for _, id := range ids {
+			fn, ok := props[id]
+			if !ok {
+				fmt.Println("unknown property", id)
+				os.Exit(2)
+			}
+			if c := runPropOn(id, fn, p, err, *repo, *verif, *tier, seed); c > code {
+				code = c
+			}
+		}
+		os.Exit(code)
+	}
 	fn, ok := props[*prop]
 	if !ok {
 		var ids []string
@@ -109,9 +135,13 @@ func flagSet(fs *flag.FlagSet, name string) bool {
 }
 
 func runProp(id string, fn func(*Ctx), repo, verif, tier string, seed int) (code int) {
+	p, err := LoadRepo(repo)
+	return runPropOn(id, fn, p, err, repo, verif, tier, seed)
+}
+
+func runPropOn(id string, fn func(*Ctx), p *Prog, err error, repo, verif, tier string, seed int) (code int) {
 	rep := NewReport(id, tier)
 	rep.Rule("R00", "the repository loads and type-checks; every anchor the rules need is found", 1)
-	p, err := LoadRepo(repo)
 	if err != nil {
 		rep.Unres("R00", "load", repo, err.Error())
 		return rep.Finish(verif, seed)
